@@ -91,7 +91,7 @@ PROG_KINDS = {
     "C11": [("calls", "flow"), ("args", "flow"), ("results", "flow"), ("deps", None), ("order", "flow"), ("cancel", "flow")],
     "C13": [("static.parses", None), ("static.typechecks", None), ("static.directives", None), ("toolpanic", None)],
     "C14": [("accept", None), ("diag", None)],
-    "C12": [("evalgoroutine", None), ("oncaller", None)],
+    "C12": [("evalgoroutine", None), ("oncaller", None), ("static.shared", None)],
     "C15": [("evalorder", None), ("evalgoroutine", None), ("static.hygiene", None)],
     "C16": [("static.astdiff", None)],
     "C17": [("static.deterministic", None)],
